@@ -317,6 +317,8 @@ class Executor:
         if isinstance(v, VSetView):
             c = st.heap[v.ref.id]
             return z3.Select(c.data, to_z3(v.idx)), c.elem_sort
+        if isinstance(v, Ref) and isinstance(st.heap.get(v.id), SetContent) and not isinstance(st.heap[v.id].elem_sort, str):
+            return st.heap[v.id].data, st.heap[v.id].elem_sort
         return None
 
     def binop(self, st, op, a, b, node):
@@ -850,6 +852,12 @@ class Executor:
                 if getattr(c, 'readonly', False):
                     raise OutOfSubset('store through an array view at line %d' % node.lineno)
                 ix = idx if isinstance(idx, VTuple) else VTuple((idx,))
+                if len(ix) == c.ndim and any(isinstance(i, slice) for i in ix) and c.numpy and \
+                        all(i == slice(None, None, None) for i in ix if isinstance(i, slice)) and (is_num(val) or isinstance(val, bool)):
+                    # a[:, j] = scalar (broadcast over the full axes): every element whose fixed coordinates match is overwritten
+                    val = self.elem_coerce(st, c, val, node)
+                    c.data = self._axis_update(st, c, ix, node, lambda old: to_z3(val))
+                    return
                 if any(isinstance(i, slice) for i in ix) or len(ix) != c.ndim:
                     raise OutOfSubset('slice/partial store at line %d' % node.lineno)
                 eff = [self.index_value(st, c, i, c.shape[k], node, 'array axis %d' % k) for k, i in enumerate(ix)]
@@ -873,6 +881,17 @@ class Executor:
                 c.vals = z3.Store(c.vals, k, self.pack(val, c.val_sort))
                 return
         raise OutOfSubset('store into %r at line %d' % (base, node.lineno))
+
+    def _axis_update(self, st, c, ix, node, fn):
+        """array data after  a[ix] = fn(a[ix])  where ix mixes full slices and integer indices"""
+        fixed = {k: self.index_value(st, c, i, c.shape[k], node, 'array axis %d' % k) for k, i in enumerate(ix) if not isinstance(i, slice)}
+        qs = [z3.Int(fresh_name('ax%d' % k)) for k in range(c.ndim)]
+        old = arr_select(c.data, qs)
+        hit = z3.And(*[qs[k] == to_z3(v) for k, v in fixed.items()]) if fixed else z3.BoolVal(True)
+        body = z3.If(hit, fn(old), old)
+        for q in reversed(qs):
+            body = z3.Lambda([q], body)
+        return body
 
     def elem_coerce(self, st, c, val, node):
         if c.kind == 'real':
@@ -1053,6 +1072,8 @@ class Executor:
             if isinstance(c, ArrContent):
                 if a == 'shape':
                     return VTuple(c.shape)
+                if a == 'dtype':
+                    return VOpaque({'int': 'dtype int64', 'bool': 'dtype bool'}.get(c.kind, 'dtype float64'))
                 if a == 'ndim':
                     return c.ndim
                 if a == 'size':
@@ -1248,6 +1269,12 @@ class Executor:
                 return None
             if name == 'discard':
                 c.data = z3.Store(c.data, self.pack(args[0], c.elem_sort), z3.BoolVal(False))
+                return None
+            if name == 'update' and len(args) == 1:
+                sv = self.as_set(st, args[0], node)
+                if sv is None or sv[1] != c.elem_sort:
+                    raise OutOfSubset('set.update with %r at line %d' % (args[0], node.lineno))
+                c.data = z3.SetUnion(c.data, sv[0])
                 return None
         if isinstance(c, DictContent):
             if name == 'get':
@@ -1677,6 +1704,19 @@ class Executor:
         return _UNSET
 
     def x_AugAssign(self, s, st):
+        if isinstance(s.target, ast.Subscript) and isinstance(s.op, (ast.Add, ast.Sub, ast.Mult)):
+            ix = self.ev_index(s.target.slice, st)
+            ix = ix if isinstance(ix, VTuple) else VTuple((ix,))
+            if any(isinstance(i, slice) for i in ix):
+                base = self.ev(s.target.value, st)
+                c = st.heap.get(base.id) if isinstance(base, Ref) else None
+                v = self.ev(s.value, st)
+                if isinstance(c, ArrContent) and c.numpy and len(ix) == c.ndim and is_num(v) and not getattr(c, 'readonly', False) and \
+                        all(i == slice(None, None, None) for i in ix if isinstance(i, slice)):
+                    # a[:, j] += scalar: element-wise on the selected hyperplane
+                    c.data = self._axis_update(st, c, ix, s, lambda old: to_z3(self.binop(st, s.op, old, v, s)))
+                    self.ghost_hook(s, st)
+                    return [(st, None)]
         cur = self.ev(_as_load(s.target), st)
         v = self.ev(s.value, st)
         r = self.binop(st, s.op, cur, v, s)
@@ -2038,6 +2078,9 @@ class Executor:
         self.assume(hb, z3.And(z3.IsMember(e, arr0), z3.Not(z3.IsMember(e, visited))))
         if es == Pair:
             val = VTuple((Pair.p(e), Pair.i(e)))
+        elif isinstance(es, z3.DatatypeSortRef) and es.num_constructors() == 1:
+            from .values import tuple_components
+            val = VTuple(tuple_components(e))       # a set of integer tuples: the loop variable is the tuple of components
         else:
             val = e
         self.assign_target(hb, s.target, val, s)
@@ -2894,6 +2937,14 @@ def _np_allclose(ex, st, node, a, b, rtol=Fraction(1, 100000), atol=Fraction(1, 
 
 def _it_product(ex, st, node, *iters):
     import itertools as _itl
+    if iters and all(isinstance(it, VRange) and it.step == 1 for it in iters) and any(is_z3(it.lo) or is_z3(it.hi) for it in iters):
+        # product of symbolic integer ranges: the box {t : lo_k <= t_k < hi_k} as a set of integer tuples (an iterator in python;
+        # as a value it is only usable where order and multiplicity do not matter: set(...), set.update(...))
+        from .values import int_tuple_sort, tuple_components
+        srt = int_tuple_sort(len(iters))
+        t = z3.Const(fresh_name('t'), srt)
+        comps = tuple_components(t)
+        return VSetVal(z3.Lambda([t], z3.And(*[z3.And(to_z3(it.lo) <= c_, c_ < to_z3(it.hi)) for it, c_ in zip(iters, comps)])), srt)
     lists = [ex.iter_values(st, it, node) for it in iters]
     return VTuple(VTuple(t) for t in _itl.product(*lists))
 
